@@ -32,6 +32,7 @@
 #ifdef MPI
 #include "communication_mpi.h"
 #endif // MPI
+#define MIN(a, b) ((a) > (b) ? (b) : (a))    ///< Returns the minimum of a and b
 
 
 /**
@@ -83,9 +84,9 @@ static struct reb_treecell *reb_tree_add_particle_to_cell(struct reb_simulation*
 		struct reb_particle p = particles[pt];
 		if (parent == NULL){ // The new node is a root
 			node->w = r->root_size;
-			int i = ((int)floor((p.x + r->boxsize.x/2.)/r->root_size))%r->N_root_x;
-			int j = ((int)floor((p.y + r->boxsize.y/2.)/r->root_size))%r->N_root_y;
-			int k = ((int)floor((p.z + r->boxsize.z/2.)/r->root_size))%r->N_root_z;
+			int i = MIN((int)floor((p.x + r->boxsize.x/2.)/r->root_size),r->N_root_x-1)%r->N_root_x;
+			int j = MIN((int)floor((p.y + r->boxsize.y/2.)/r->root_size),r->N_root_y-1)%r->N_root_y;
+			int k = MIN((int)floor((p.z + r->boxsize.z/2.)/r->root_size),r->N_root_z-1)%r->N_root_z;
 			node->x = -r->boxsize.x/2.+r->root_size*(0.5+(double)i);
 			node->y = -r->boxsize.y/2.+r->root_size*(0.5+(double)j);
 			node->z = -r->boxsize.z/2.+r->root_size*(0.5+(double)k);
